@@ -54,7 +54,10 @@ class Linear:
         return None
 
     _TESTS = {"std::option::Option::is_some": ("Some", "None"), "std::option::Option::is_none": ("None", "Some"),
-              "std::result::Result::is_ok": ("Ok", "Err"), "std::result::Result::is_err": ("Err", "Ok")}
+              "std::result::Result::is_ok": ("Ok", "Err"), "std::result::Result::is_err": ("Err", "Ok"),
+              # crossbeam's three-valued steal result: a false is_success leaves only the payload-free variants
+              "crossbeam_deque::Steal::is_retry": ("Retry", "?"), "crossbeam_deque::Steal::is_empty": ("Empty", "?"),
+              "crossbeam_deque::Steal::is_success": ("Success", "Empty")}
 
     def _variant_test(self, bid, t, holders):
         """For a bool switch whose condition is `<holder>.is_some()` (or is_none/is_ok/is_err, possibly negated or copied):
